@@ -184,6 +184,13 @@ class Roles:
                                 hit = True
             if hit:
                 out |= bi.cfg.edge_dominated(blk.idx, t.otherwise)
+        # the flag may be an atomic shared with a handle: `if self.deleted.load(..)`
+        from mapstate import _bool_switches
+        for bb, t in bi.calls(lambda c: c.path.startswith("std::sync::atomic::") and c.path.endswith("::load")):
+            if t.args and t.dest is not None and t.dest.is_local() and cell in self.prog.receiver_origin(bi, t.args[0]).cells():
+                for sw, tr, fa in _bool_switches(bi, t.dest.local):
+                    if tr is not None:
+                        out |= bi.cfg.edge_dominated(sw, tr)
         return out
 
     def call_result_arm_blocks(self, bi, pred, truth):
